@@ -1401,3 +1401,27 @@ def oracle_corruption(ctx, tag="corruption", frac=0.60):
     if len(out) < planned * 0.8:
         ctx.skip("corruption stream: %d of %d planned runs (time budget / machine load)" % (len(out), planned))
     return out
+
+
+MANIFEST = {
+    "text": "Proved in Lean for all inputs (Props/C08.lean, 19 theorems, axioms propext/Classical.choice/Quot.sound only): (P) extract_confined - for "
+            "the dispatch of the current source (Cfg.current, built from constants extracted from archive.py/utils.py on every run), every "
+            "member list (any names, types, link names, order, repetitions, pax version) and every well-formed initial tree with a canonical "
+            "destination in which no inode is shared between the workspace and the rest: __extractPackage leaves the name table, the inodes "
+            "(content, type, link target, mode) and the link sets of everything outside the workspace and the audit file unchanged, and keeps "
+            "the inode separation; the same statement is REFUTED by concrete witnesses for the dispatch before commit 8ba1640 (hard link, '..' "
+            "through a missing directory, inbound symlink) and for a repair that only normalises link names. (P) pack_extract_namespace / "
+            "dispatch_accepts_only - content/<rel> <-> <rel>, meta/audit.json.gz, content, meta is a bijection on all strings and nothing else is "
+            "accepted. (P) accepted_is_verified / accepted_is_packed / mismatch_never_accepted - a download is recorded only if the audit exists and "
+            "hash(extracted) = audit.resultHash; with an injective directory hash the accepted tree is the packed tree. (C) fidelity of the "
+            "tar/gzip round trip, outcomes of truncation / bit flips / wrong formats through LocalBuilder._downloadPackage, and the model itself "
+            "(outcome kind + complete resulting tree of a jail, thousands of hostile archives per run) are decided differentially. (A) tar/gzip "
+            "codec, CPython's per-member extraction semantics as transliterated (makelink fallback, symlink loops, fifo writes, non-regular "
+            "audit members are outside the model).",
+    "note": "trusted: Lean kernel, harness/props/c08.py, tools/consts/c08.py, CPython 3.12 tarfile/gzip/os semantics (member extraction modelled and "
+            "validated differentially, codec trusted), POSIX path resolution as modelled by `walk`, SHA-1 collision freedom of hashDirectory "
+            "(hypothesis of accepted_is_packed); HTTP and Jenkins transports not exercised",
+    "technique": "Lean 4 proof over hand-written model (file system with inodes, strict/lenient path walk, member dispatch) + differential correspondence "
+                 "on hostile archives in a jail + implementation-only oracles (pack/extract fidelity, outside-of-jail snapshot, corruption through the "
+                 "real download path)",
+}
